@@ -794,7 +794,7 @@ class Fxp():
                 val = val / self.scale
 
             # update vdtype due scaling tranformation
-            if vdtype == int and (isinstance(self.bias, float) or self.scale != 1):
+            if vdtype == int and (isinstance(self.bias, (float, np.floating)) or self.scale != 1):
                 vdtype = float
             
             # check if it is a numpy array
@@ -1591,6 +1591,9 @@ class Fxp():
         y = Fxp(like=self)
         # an element is held like every other scalar value (a 0-d array of the same type), a sub-array stays a view
         y.val = np.asarray(self.val[index], dtype=self.val.dtype)
+        # nothing has been written to it: the placeholder the empty object was built with (0, which a scaled format may not hold)
+        # leaves no flag behind
+        y.reset()
         return y
 
     def __setitem__(self, index, value):
